@@ -26,7 +26,7 @@ def renderEvent (e : Event) : String :=
   match e.call with
   | .openSrc nf => s!"open SRC rd{if nf then "+nofollow" else ""} -> {renderRes false e.res}"
   | .fstat t => s!"fstat {tgt t} -> {renderRes false e.res}"
-  | .openDir => s!"open DIR dir -> {renderRes false e.res}"
+  | .openDir => s!"open DIR rd+dir -> {renderRes false e.res}"
   | .unlinkForce => s!"unlink DST -> {renderRes false e.res}"
   | .openDest => s!"open DST wr+creat+excl+0600 -> {renderRes false e.res}"
   | .read n => s!"read SRC {n} -> {renderCount e.res}"
